@@ -890,13 +890,27 @@ func (s *genState) emit(kind, prop string) {
 		if (prop == "C09" || prop == "C04") && t.hasRoot && g.Intn(8) == 0 {
 			dop.F, dop.N = "loadfault", 1+g.Intn(5)
 		}
+		if prop == "C01" && g.Intn(12) == 0 {
+			// Delete with the untyped nil as the value: matches only an entry whose value is nil
+			dop.F = "nilval"
+			s.ops = append(s.ops, dop)
+			if ok && s.cfg.ValD == "nil" {
+				delete(t.model, k)
+				t.dirty = true
+			}
+			break
+		}
 		s.ops = append(s.ops, dop)
 		if ok && v == cur {
 			delete(t.model, k)
 			t.dirty = true
 		}
 	case "get":
-		s.ops = append(s.ops, Op{K: "get", T: ti, Key: s.anyKey(t, 60)})
+		gop := Op{K: "get", T: ti, Key: s.anyKey(t, 60)}
+		if prop == "C01" && g.Intn(6) == 0 {
+			gop.F = "iface" // the destination is a *interface{} rather than a pointer to the value type
+		}
+		s.ops = append(s.ops, gop)
 	case "size":
 		s.ops = append(s.ops, Op{K: "size", T: ti})
 	case "iter":
